@@ -340,10 +340,50 @@ def t_and_split(tree, only=None):
     return _apply_in_funcs(tree, R(), only)
 
 
+def t_pos_to_kw(tree, only=None):
+    """positional arguments (after the first) of calls to functions / methods defined once in this file become keywords"""
+    defs = {}
+    for fn in _funcs(tree):
+        defs.setdefault(fn.name, []).append(fn)
+    uniq = {k: v[0] for k, v in defs.items() if len(v) == 1 and not v[0].args.vararg and not v[0].args.posonlyargs
+            and all(isinstance(d, ast.Name) and d.id in ('staticmethod', 'classmethod') for d in v[0].decorator_list)}
+
+    class R(ast.NodeTransformer):
+        def visit_Call(self, node):
+            self.generic_visit(node)
+            name = None
+            skip_self = 0
+            if isinstance(node.func, ast.Attribute) and isinstance(node.func.value, ast.Name) and node.func.value.id in ("self", "cls"):
+                name, skip_self = node.func.attr, 1
+            elif isinstance(node.func, ast.Name):
+                name = node.func.id
+            fn = uniq.get(name)
+            if fn is None or any(isinstance(a, ast.Starred) for a in node.args) or len(node.args) < 2:
+                return node
+            params = [a.arg for a in fn.args.args]
+            if skip_self and params and params[0] in ("self", "cls"):
+                params = params[1:]
+            elif not skip_self and params and params[0] in ("self", "cls"):
+                return node
+            if len(node.args) > len(params):
+                return node
+            given = {k.arg for k in node.keywords}
+            new_kw = []
+            for i, a in enumerate(node.args[1:], start=1):
+                if params[i] in given:
+                    return node
+                new_kw.append(ast.keyword(arg=params[i], value=a))
+            node.args = node.args[:1]
+            node.keywords = new_kw + node.keywords
+            return node
+
+    return _apply_in_funcs(tree, R(), only)
+
+
 TRANSFORMS = {
     "reformat": t_reformat, "ret_temp": t_ret_temp, "assign_temp": t_assign_temp, "rename": t_rename,
     "if_invert": t_if_invert, "ternary_split": t_ternary_split, "early_exit_else": t_early_exit_else,
-    "cmp_flip": t_cmp_flip, "kw_reverse": t_kw_reverse, "noop_insert": t_noop_insert, "and_split": t_and_split,
+    "cmp_flip": t_cmp_flip, "kw_reverse": t_kw_reverse, "noop_insert": t_noop_insert, "and_split": t_and_split, "pos_to_kw": t_pos_to_kw,
 }
 
 
